@@ -252,6 +252,8 @@ def main(quick=False):
     audit("add.reduceat", lambda m, a, i: m.add.reduceat(a, i), lambda m, a, i: np.add.reduceat(a, i),
           [(a, i) for a in A[::9] if len(a) for i in [np.array(t) for k in (1, 2, 3) for t in itertools.product(range(len(a) + 1), repeat=k)]][::2],
           determinate=False)
+    audit("add.reduceat on booleans (integer accumulator)", lambda m, a, i: m.add.reduceat(a, i), lambda m, a, i: np.add.reduceat(a, i),
+          [(a, i) for a in B if len(a) for i in [np.array(t) for k in (1, 2) for t in itertools.product(range(len(a)), repeat=k)]][::3], determinate=False)
     audit("uint64 shifts (shift >= 64 gives 0)", lambda m, x, s: (x << s, x >> s), lambda m, x, s: (x << s, x >> s),
           [(np.array([1, 2 ** 63, 2 ** 64 - 1, 5], dtype=np.uint64), np.uint64(s)) for s in (0, 1, 8, 63, 64)])
     dt = time.time() - t0
